@@ -422,6 +422,154 @@ pub fn scenario(r: &mut Report, p: &Params) {
 
 /// Larger networks (50..300 nodes): Kademlia completeness is probabilistic, so the success rate of
 /// write/read pairs is compared with a floor far below the loss-free baseline.
+/// Join order and history matter: the reader has already looked the key up (its lookup cache holds the nodes
+/// that answered then), a new storing node joins through the reader, the writer publishes again, every node
+/// but the reader and the newcomer crashes, and the reader looks the key up once more within the cache's
+/// lifetime. The newcomer acknowledged the write, is alive and is in the reader's routing table.
+pub fn late_joiner_scenario(r: &mut Report, seed: u64) {
+    r.eval();
+    let mut rng = Rng::new(seed);
+    let w = World::with_cfg(seed, NetCfg::default(), TraceLevel::Off);
+    let servers = 2 + rng.usize(9);
+    let mut net = build_net(&w, servers, 0, IpPlan::Private, false, &mut rng);
+    let kinds = ["immutable", "mutable", "announce_peer", "announce_signed_peer"];
+    let kind = *rng.pick(&[0usize, 1, 3]);
+    let mut case = json!({"class":"late-joiner","seed":seed.to_string(),"servers":servers,"kind":kinds[kind]});
+    let wi = rng.usize(servers);
+    // the reader: one of the servers, or (half of the time) a client-mode node - a server also asks itself
+    // during its lookups and answers from its own routing table, a client does not
+    let reader_is_client = rng.bool();
+    let ri = if reader_is_client {
+        let c = w.spawn(NodeSpec::client(std::net::Ipv4Addr::new(10, 78, 0, 1), &[net.boot])).expect("reader");
+        w.block_on(c.adht.bootstrapped(), 120 * SEC);
+        net.nodes.push(c);
+        net.nodes.len() - 1
+    } else {
+        (wi + 1 + rng.usize(servers - 1)) % servers
+    };
+    case["reader_is_client"] = json!(reader_is_client);
+    let wr = match write(&w, &net, wi, kind, &mut rng) {
+        Ok(x) => x,
+        Err(_) => {
+            r.count("puts_not_ok");
+            return;
+        }
+    };
+    // A put is served from the writer's own lookup cache while that is younger than 5 minutes, and so is a
+    // repeated lookup on the reader: the reader's first lookup happens 4 minutes after the write, the
+    // second publication after 5 (fresh lookup on the writer, which now finds the newcomer), the reader's
+    // second lookup right after it (its cache entry is a good minute old).
+    let t_write = w.now();
+    w.run_for(240 * SEC);
+    // the reader's first lookup (finds the value and caches who answered)
+    match read(&w, &net, ri, &wr) {
+        Ok(true) => r.count(&format!("found/late-joiner-first-read/{}", kinds[kind])),
+        Ok(false) => {
+            r.violation(&format!("read/plain/not-found/{}", kinds[kind]), "a value whose put returned Ok was not returned by a later lookup on another node", case.clone(), json!({"kind": kinds[kind], "phase": "first read"}));
+            return;
+        }
+        Err(e) => {
+            r.violation("read/plain/did-not-complete", &format!("reader lookup: {e}"), case.clone(), json!({}));
+            return;
+        }
+    }
+    // a new storing node joins through the reader
+    let via = if reader_is_client { net.boot } else { net.nodes[ri].addr };
+    let s_node = w.spawn(NodeSpec::server(std::net::Ipv4Addr::new(10, 77, 0, 1), &[via])).expect("late server");
+    w.block_on(s_node.adht.bootstrapped(), 120 * SEC);
+    let s_addr = s_node.addr;
+    // the reader gets to know the newcomer through a lookup of an unrelated target
+    if let Some(info) = w.block_on(s_node.adht.info(), 5 * SEC) {
+        let a = net.nodes[ri].adht.clone();
+        let t = *info.id();
+        w.block_on(async move { drop(a.find_node(t).await) }, 120 * SEC);
+    }
+    // the writer publishes the same datum again
+    w.run_to(t_write + 310 * SEC);
+    w.set_trace(TraceLevel::Full);
+    w.clear_trace();
+    let node = &net.nodes[wi];
+    let bound = 120 * SEC;
+    let again: Option<bool> = match kind {
+        0 => w.block_on(node.adht.put_immutable(&wr.value), bound).map(|x| x.is_ok()),
+        1 => w.block_on(node.adht.put_mutable(wr.item.clone().expect("item"), None), bound).map(|x| x.is_ok()),
+        _ => w.block_on(node.adht.announce_signed_peer(wr.target, &wr.signer), bound).map(|x| x.is_ok()),
+    };
+    let trace = w.trace_from(0);
+    w.set_trace(TraceLevel::Off);
+    w.clear_trace();
+    if again != Some(true) {
+        r.count("late_joiner/republish-not-ok");
+        return;
+    }
+    let (sends, delivers) = sends_and_delivers(&trace);
+    let reqs = requests_of(&sends, node.addr, |k| matches!(k.q.as_deref(), Some("put") | Some("announce_peer") | Some("announce_signed_peer")));
+    let s_acked = delivers.iter().any(|d| d.to == node.addr && d.k.y == b'r' && d.from == s_addr && reqs.contains_key(&(d.from, d.k.t.clone())));
+    if !s_acked {
+        r.count("premise_unmet/late-joiner-did-not-ack");
+        return;
+    }
+    // everybody but the reader and the newcomer crashes
+    let mut kept: Vec<Option<Node>> = net.nodes.drain(..).map(Some).collect();
+    let mut socks = vec![];
+    for (i, slot) in kept.iter_mut().enumerate() {
+        if i != ri {
+            if let Some(nd) = slot.take() {
+                w.crash_sock(nd.sock);
+                socks.push(nd.sock);
+                drop(nd);
+            }
+        }
+    }
+    for sck in socks {
+        w.reap(sck);
+    }
+    r.add("nodes_crashed", (kept.len() - 1) as u64);
+    let reader = kept[ri].take().expect("reader");
+    r.count(if reader_is_client { "late_joiner/client-mode-reader" } else { "late_joiner/server-mode-reader" });
+    // premise: the reader knows the newcomer
+    let knows = snapshot(&w, &reader).map(|sn| if kind == 3 { sn.signed_table.nodes.iter().any(|x| x.1 == s_addr) } else { sn.table.nodes.iter().any(|x| x.1 == s_addr) }).unwrap_or(false);
+    if !knows {
+        r.count("premise_unmet/reader-does-not-know-the-late-joiner");
+        drop(reader);
+        drop(s_node);
+        w.shutdown();
+        let _ = crate::take_panics();
+        return;
+    }
+    net.nodes = vec![reader];
+    let wr2 = Written { writer: usize::MAX, ..wr };
+    if std::env::var("MLV_DEBUG").is_ok() {
+        w.set_trace(TraceLevel::Full);
+        w.clear_trace();
+    }
+    let second = read(&w, &net, 0, &wr2);
+    if std::env::var("MLV_DEBUG").is_ok() {
+        let (sends, _) = sends_and_delivers(&w.trace_from(0));
+        for m in sends.iter() {
+            eprintln!("  t={}ms {} -> {} {} q={:?} late_joiner={}", m.t / 1_000_000, m.from, m.to, m.k.y as char, m.k.q, m.to == s_addr || m.from == s_addr);
+        }
+        w.set_trace(TraceLevel::Off);
+    }
+    match second {
+        Ok(true) => r.count(&format!("found/late-joiner-after-crash/{}", kinds[kind])),
+        Ok(false) => r.violation(
+            &format!("read/late-joiner-after-crash/not-found/{}", kinds[kind]),
+            "the only surviving node that acknowledged the write joined after the reader's first lookup of the key; the reader knows it, but its second lookup did not return the value",
+            case.clone(),
+            json!({"kind": kinds[kind], "servers": servers}),
+        ),
+        Err(e) => r.violation("read/late-joiner-after-crash/did-not-complete", &format!("reader lookup: {e}"), case.clone(), json!({})),
+    }
+    r.nontrivial(mix(seed, w.order_hash()));
+    drop(net);
+    drop(s_node);
+    w.shutdown();
+    for (thread, loc, msg) in crate::take_panics() {
+        r.violation(&format!("panic/{loc}"), &format!("thread {thread} panicked: {msg}"), case.clone(), json!({}));
+    }
+}
+
 pub fn large_scenario(r: &mut Report, seed: u64, servers: usize, pairs: usize) {
     r.eval();
     let mut rng = Rng::new(seed);
@@ -480,6 +628,10 @@ pub fn run(a: &Args) -> Report {
     if let Some(path) = &a.replay {
         let v: Value = serde_json::from_str(&std::fs::read_to_string(path).unwrap_or_default()).unwrap_or_default();
         let c = &v["case"];
+        if c["class"] == "late-joiner" {
+            late_joiner_scenario(&mut r, c["seed"].as_str().and_then(|s| s.parse().ok()).unwrap_or(1));
+            return r;
+        }
         if c["class"] == "large-network" {
             large_scenario(&mut r, c["seed"].as_str().and_then(|s| s.parse().ok()).unwrap_or(1), c["servers"].as_u64().unwrap_or(50) as usize, c["pairs"].as_u64().unwrap_or(40) as usize);
             return r;
@@ -511,6 +663,11 @@ pub fn run(a: &Args) -> Report {
         let p = gen_params(&mut rng, a.quick());
         super::guarded(&mut r, params_json(&p), |r| scenario(r, &p));
         r.count("networks");
+    }
+    for _ in 0..(if a.quick() { 160 } else { 3200 }) / a.nshards.max(1) {
+        let s = rng.u64();
+        super::guarded(&mut r, json!({"class":"late-joiner","seed":s.to_string()}), |r| late_joiner_scenario(r, s));
+        r.count("late_joiner_scenarios");
     }
     r
 }
